@@ -4,7 +4,6 @@
  * -DVL_STRICT   VSdetach must invalidate the id it is given on EVERY successful call (C13: "invalidated by its release
  *               call"); without it only the last detach is required to do so (the other clauses can then be judged separately)
  * -DVL_R_ON_W   VSattach(.., "r") of a vdata that is attached "w" (the state the base contract leaves to this variant)
- * -DVL_REAL_PACK  the real vpackvs runs (no contract replacement); the expected length comes from a dry run of vpackvs
  */
 #include "h4v.h"
 #include "h4v_err.h"
@@ -18,6 +17,7 @@ int   g0_found;   /* the ref given to VSattach is the vdata's */
 int   g0_nreg;    /* registered vdata ids of the model */
 int   g_j;        /* ghost slot of the atom model: "every OTHER id" */
 int32 g_packsize; /* length vpackvs reports */
+#define VL_REF 7
 
 #define ACC_R(a) ((a)[0] == 'r' || (a)[0] == 'R')
 #define ACC_W(a) ((a)[0] == 'w' || (a)[0] == 'W')
@@ -203,8 +203,8 @@ h_vl_VSdetach(void)
     H4V_ND(int32, vkey);
     g0_was_reg = VL_IS_REG(vkey) != 0;
     g0_nreg    = VL_NREG;
-#if defined(VL_REAL_PACK) || defined(H4V_NATIVE)
-    { /* the length the real vpackvs produces for this vdata (vpackvs only reads *vs) */
+#ifdef H4V_NATIVE
+    { /* native replay runs the real vpackvs: g_packsize = the length it produces for this vdata (vpackvs only reads *vs) */
         uint8 *dry = malloc(VL_NEED(g_vs));
         H4V_ASSUME(dry != NULL);
         vpackvs(g_vs, dry, &g_packsize);
@@ -223,26 +223,57 @@ h_vl_VSdetach(void)
     H4V_CANARY("VSdetach end");
 }
 
-/* bounded history: attach "r" twice, detach twice in either order, then the stale ids (6 calls).  No H-layer faults. */
+/* VSattach(f, -1, mode): creation of a new vdata (harness-level checks; loop-free) */
 void
-h_vl_history(void)
+h_vl_VSattach_new(void)
 {
     mk_vio();
-    H4V_ASSUME(g_vs->otag == DFTAG_VH && g_w->nattach == 0 && VL_NREG == 0);
-    g_h_may_fail = 0;
-    H4V_ND(int, order);
-    int32 key = g_w->key;
+    H4V_ASSUME(g_vs->otag == DFTAG_VH && VL_NREG <= 2);
+    H4V_ND(char, acc0);
+    H4V_ND(char, acc1);
+    char acc[3];
+    acc[0] = acc0;
+    acc[1] = acc1;
+    acc[2] = '\0';
+    int   n0 = g_w->nattach, c0 = g_vs->access, nreg0 = VL_NREG, elA0 = g_elA_open;
+    int32 aid0 = g_vs->aid, tabn0 = g_vf->vstabn;
+    int32 r = VSattach(VL_FID, -1, acc);
+    H4V_CHECK(g_w->nattach == n0 && g_vs->aid == aid0 && g_vs->access == c0 && (!elA0 || g_elA_open),
+              "new vdata: the vdata that exists already is not touched");
+    H4V_CHECK(!g_h_failed || r == FAIL, "new vdata (C16): a failing H-layer call is reported");
+    if (!ACC_W(acc) || VL_RDONLY(g_frec))
+        H4V_CHECK(r == FAIL && g_newref_n == 0 && g_tree_ins_n == 0 && g_reg_n == 0 && g_vf->vstabn == tabn0 && g_mut_n == 0 &&
+                      g_start_n == 0 && VL_NREG == nreg0,
+                  "new vdata (C14): refused unless the mode means write and the file is writable; no ref taken, no table entry, no id");
+    if (r != FAIL) {
+        vsinstance_t *nw = (vsinstance_t *)VL_OBJ(r);
+        H4V_CHECK(VL_IS_REG(r) && nw != NULL && nw != g_w && VL_NREG == nreg0 + 1, "new vdata (C13): the id is new and designates a new instance");
+        if (nw != NULL && nw != g_w) {
+            H4V_CHECK(nw->nattach == 1 && nw->vs != NULL, "new vdata (C13): attach count 1");
+            if (nw->vs != NULL) {
+                H4V_CHECK(nw->vs->access == 'w' && nw->vs->instance == nw && nw->vs->otag == DFTAG_VH && nw->vs->oref != 0 &&
+                              nw->key == (int32)nw->vs->oref && nw->vs->f == VL_FID,
+                          "new vdata: attached for writing, tag/ref/file set, instance and vdata linked");
+                H4V_CHECK(g_start_n == 1 && nw->vs->aid == (elA0 ? VL_AID2 : VL_AID) && (g_start_flags & DFACC_WRITE) != 0 &&
+                              g_start_tag == DFTAG_VS && g_start_ref == nw->vs->oref,
+                          "new vdata: one element opened for writing the vdata's data; vs->aid is that element");
+            }
+        }
+        H4V_CHECK(g_vf->vstabn == tabn0 + 1 && g_tree_ins_n == 1 && g_newref_n == 1, "new vdata: one table entry, one ref taken");
+    }
+    H4V_COVER(r != FAIL && acc[0] == 'W' && elA0, "new vdata created while another one is attached");
+    H4V_COVER(r == FAIL && ACC_W(acc) && !VL_RDONLY(g_frec) && g_h_failed, "new vdata: H-layer failure");
+    H4V_COVER(r == FAIL && ACC_W(acc) && VL_RDONLY(g_frec), "new vdata refused on a read-only file");
+    H4V_CANARY("VSattach new end");
+}
 
-    int32 a1 = VSattach(VL_FID, key, "r");
-    H4V_CHECK(a1 != FAIL, "history: first attach succeeds");
-    H4V_CHECK(g_w->nattach == 1 && VL_DESIGNATES_W(a1) && g_vs->aid == VL_AID && g_elA_open && g_start_n == 1,
-              "history: after the first attach count 1, id designates the vdata, element open");
-    int32 a2 = VSattach(VL_FID, key, "r");
-    H4V_CHECK(a2 != FAIL && a2 != a1, "history: second attach succeeds with another id");
-    H4V_CHECK(g_w->nattach == 2 && VL_DESIGNATES_W(a1) && VL_DESIGNATES_W(a2) && g_vs->aid == VL_AID && g_elA_open && g_start_n == 1,
-              "history: after the second attach count 2, both ids designate the vdata, same element");
-    int32 first = order ? a1 : a2, second = order ? a2 : a1;
-
+/* bounded history: attach "r" twice, detach twice in either order, then the stale ids (5 / 6 calls).  No H-layer faults.
+   The two ids are compared with the representatives the atom model hands out (first free slot) and the detach calls are made
+   with those constants: the formula then holds no id-dependent case split (an id that could also be the file id makes cbmc
+   encode VSdetach's accesses to a file record through vsinstance_t -- out of memory). */
+static void
+vl_history_rest(int32 first, int32 second)
+{
     int32 d1 = VSdetach(first);
     H4V_CHECK(d1 == SUCCEED && g_w->nattach == 1, "history: first detach succeeds, count 1");
     H4V_CHECK(g_end_n == 0 && g_vs->aid == VL_AID && g_elA_open && VL_DESIGNATES_W(second),
@@ -261,5 +292,40 @@ h_vl_history(void)
     H4V_CHECK(d4 == FAIL && g_w->nattach == 0 && g_end_n == 1 && VL_NREG == 0,
               "history: the id released first is stale too: detach fails, instance untouched, no id left registered");
 #endif
+}
+
+void
+h_vl_history(void)
+{
+    mk_vio();
+    /* start: the vdata is not attached, no id of it exists (assignments, not assumptions: constants keep the "w" path of
+       VSdetach and its header write-back out of the formula; ref, record counts, file mode stay arbitrary) */
+    g_vs->otag   = DFTAG_VH;
+    g_vs->oref   = VL_REF; /* representative ref (the table stub compares refs for equality only) */
+    g_w->key     = VL_REF;
+    g_w->ref     = VL_REF;
+    g_w->nattach = 0;
+    g_k_used[0] = g_k_used[1] = g_k_used[2] = 0;
+    g_vs->access = 'r';
+    g_vs->aid    = FAIL;
+    g_vs->marked = 0;
+    g_elA_open   = 0;
+    g_h_may_fail = 0;
+    H4V_ND(int, order);
+    int32 key = VL_REF;
+
+    int32 a1 = VSattach(VL_FID, key, "r");
+    H4V_CHECK(a1 != FAIL, "history: first attach succeeds");
+    H4V_CHECK(g_w->nattach == 1 && VL_DESIGNATES_W(a1) && g_vs->aid == VL_AID && g_elA_open && g_start_n == 1,
+              "history: after the first attach count 1, id designates the vdata, element open");
+    int32 a2 = VSattach(VL_FID, key, "r");
+    H4V_CHECK(a2 != FAIL && a2 != a1, "history: second attach succeeds with another id");
+    H4V_CHECK(g_w->nattach == 2 && VL_DESIGNATES_W(a1) && VL_DESIGNATES_W(a2) && g_vs->aid == VL_AID && g_elA_open && g_start_n == 1,
+              "history: after the second attach count 2, both ids designate the vdata, same element");
+    H4V_CHECK(a1 == VL_K0 && a2 == VL_K1, "history (model): the atom model hands out its first free representative");
+    if (order)
+        vl_history_rest(VL_K0, VL_K1);
+    else
+        vl_history_rest(VL_K1, VL_K0);
     H4V_CANARY("history end");
 }
